@@ -41,6 +41,10 @@ pub fn main(args: &[String]) -> i32 {
     let mut jobs = Vec::new();
     let mut id = 0;
     let mut samples = Vec::new();
+    let bounds_bodies = ["a", "(a)", "(?:a|b)", "[ab]", "(?:a|bb)", "(?:a?)", "(a|^)", "(?:^|a)", "(a)\\1", ".", "(?:ab)"];
+    let bounds_nums = ["0", "1", "2", "255", "65535", "65536", "2147483647", "2147483648", "4294967295", "4294967296",
+        "9223372036854775807", "9223372036854775808", "18446744073709551614", "18446744073709551615",
+        "18446744073709551616", "99999999999999999999", "340282366920938463463374607431768211456", "007", "00000000000000000000000000000001"];
     for _ in 0..count {
         let xsd = rng.chance(p.xsd_percent);
         let mut pat = gen::gen_pattern(&mut rng, &p, xsd);
@@ -52,6 +56,22 @@ pub fn main(args: &[String]) -> i32 {
                 }
             }
             "garbage" => pat = gen::garbage(&mut rng, 24),
+            "bounds" => {
+                let body = *rng.pick(&bounds_bodies);
+                let n = *rng.pick(&bounds_nums);
+                let m = *rng.pick(&bounds_nums);
+                let q = match rng.below(5) {
+                    0 => format!("{{{}}}", n),
+                    1 => format!("{{{},}}", n),
+                    2 => format!("{{0,{}}}", n),
+                    3 => format!("{{{},{}}}", n, m),
+                    _ => format!("{{1,{}}}", n),
+                };
+                let lazy = if rng.chance(30) { "?" } else { "" };
+                let tail = *rng.pick(&["", "a", "$", "b", "\\1"]);
+                let head = *rng.pick(&["", "^", "x?", "(x)?"]);
+                pat = format!("{}{}{}{}{}", head, body, q, lazy, tail);
+            }
             _ => {}
         }
         let flags = if mode == "garbage" && rng.chance(30) {
@@ -63,6 +83,9 @@ pub fn main(args: &[String]) -> i32 {
         let mut inputs: Vec<String> = (0..ninputs).map(|_| gen::gen_input(&mut rng, &p, &pat)).collect();
         if mode == "garbage" {
             inputs[0] = gen::garbage(&mut rng, 24);
+        }
+        if mode == "bounds" {
+            inputs = vec!["".to_string(), "a".to_string(), "xxaaa".to_string(), "aaaaaaaaab".to_string()];
         }
         let mut repls: Vec<String> = p.repls.iter().map(|s| s.to_string()).collect();
         if p.random_repl || mode == "garbage" {
